@@ -207,9 +207,8 @@ def run_languagetool(plain, language, disable, enable,
             tex2txt.fatal('error running ' + repr(' '.join(lt_cmd))
                             + ' in directory ' + repr(cmdline.lt_directory))
 
-    out = out.decode(encoding='utf-8')
     try:
-        dic = json_decoder.decode(out)
+        dic = json_decoder.decode(out.decode(encoding='utf-8'))
     except:
         json_fatal('JSON root element')
     matches = json_get(dic, 'matches', list)
@@ -289,9 +288,8 @@ def run_textgears(plain):
     except:
         tex2txt.fatal('error connecting to "' + textgears_server + '"')
 
-    out = out.decode(encoding='utf-8')
     try:
-        dic = json_decoder.decode(out)
+        dic = json_decoder.decode(out.decode(encoding='utf-8'))
     except:
         json_fatal('JSON root element')
 
